@@ -17,9 +17,8 @@
 (*                                    not an lvalue                         *)
 (* A store maps the variable names to [kind, v]: unset, empty, num, bad.    *)
 (* Eval(e, st, eager) = [v, st, f (fault), u (undefined by C)]              *)
-(* With eager = TRUE the operands that C skips are evaluated as well (their *)
-(* faults and assignments happen): this is the named deviation of the       *)
-(* implementation (known finding), not the property.                        *)
+(* eager = FALSE: the C semantics (EvalC, the property); eager = TRUE: the   *)
+(* named deviation of the implementation (EvalE, known finding).            *)
 (***************************************************************************)
 EXTENDS Int64, FiniteSets
 
@@ -76,42 +75,36 @@ Calc(op, a, b) ==
 BaseOp(op) == CASE op = "*=" -> "*" [] op = "/=" -> "/" [] op = "%=" -> "%" [] op = "+=" -> "+" [] op = "-=" -> "-"
                 [] op = "<<=" -> "<<" [] op = ">>=" -> ">>" [] op = "&=" -> "&" [] op = "^=" -> "^" [] OTHER -> "|"
 
-RECURSIVE Eval(_, _, _)
-(* the deviation, precisely: an operand that C skips is evaluated -- unless it is a plain variable, whose value is only *)
-(* looked up when it is used (so `0 && g` with a garbage g is no fault, `0 && -g` is)                                     *)
-Skipped(e, st) == IF e.k = "var" THEN R(Zero, st, FALSE, FALSE) ELSE Eval(e, st, TRUE)
-Eval(e, st, eager) ==
+(***************************************************************************)
+(* EvalC: the C semantics (the property).                                   *)
+(***************************************************************************)
+RECURSIVE EvalC(_, _)
+EvalC(e, st) ==
     CASE e.k = "num" -> R(e.v, st, e.bad, FALSE)
       [] e.k = "var" -> LET x == Read(st, e.n) IN R(x.v, st, x.f, FALSE)
       [] e.k = "un"  ->
-           LET a == TLCEval(Eval(e.a, st, eager)) IN
+           LET a == TLCEval(EvalC(e.a, st)) IN
            R(CASE e.op = "+" -> a.v [] e.op = "-" -> Neg(a.v) [] e.op = "~" -> Not64(a.v) [] OTHER -> Bool(a.v = Zero), a.st, a.f, a.u)
       [] e.k = "bin" ->
-           LET a == TLCEval(Eval(e.a, st, eager))
-               b == TLCEval(Eval(e.b, a.st, eager))
+           LET a == TLCEval(EvalC(e.a, st))
+               b == TLCEval(EvalC(e.b, a.st))
            IN  IF a.f THEN R(Zero, a.st, TRUE, a.u \/ b.u)                 \* nothing is assigned after the first fault
                ELSE IF b.f THEN R(Zero, b.st, TRUE, a.u \/ b.u)
                ELSE LET c == TLCEval(Calc(e.op, a.v, b.v)) IN R(c.v, b.st, c.f, a.u \/ b.u \/ c.u)
       [] e.k \in {"and", "or"} ->
-           LET a == TLCEval(Eval(e.a, st, eager))
+           LET a == TLCEval(EvalC(e.a, st))
                decided == IF e.k = "and" THEN a.v = Zero ELSE a.v # Zero
            IN  IF a.f THEN R(Zero, a.st, TRUE, a.u)
-               ELSE IF decided /\ ~eager THEN R(Bool(e.k = "or"), a.st, FALSE, a.u)         \* the right operand is not evaluated
-               ELSE LET b == TLCEval(IF decided THEN Skipped(e.b, a.st) ELSE Eval(e.b, a.st, eager)) IN
+               ELSE IF decided THEN R(Bool(e.k = "or"), a.st, FALSE, a.u)         \* the right operand is not evaluated
+               ELSE LET b == TLCEval(EvalC(e.b, a.st)) IN
                     IF b.f THEN R(Zero, b.st, TRUE, a.u \/ b.u)
-                    ELSE R(IF decided THEN Bool(e.k = "or") ELSE Bool(b.v # Zero), b.st, FALSE, a.u \/ b.u)
+                    ELSE R(Bool(b.v # Zero), b.st, FALSE, a.u \/ b.u)
       [] e.k = "tern" ->
-           LET c == TLCEval(Eval(e.c, st, eager)) IN
+           LET c == TLCEval(EvalC(e.c, st)) IN
            IF c.f THEN R(Zero, c.st, TRUE, c.u)
-           ELSE IF ~eager
-                THEN LET x == TLCEval(Eval(IF c.v # Zero THEN e.a ELSE e.b, c.st, eager)) IN R(x.v, x.st, x.f, c.u \/ x.u)
-                ELSE LET a == TLCEval(IF c.v # Zero THEN Eval(e.a, c.st, eager) ELSE Skipped(e.a, c.st))
-                         b == TLCEval(IF c.v # Zero THEN Skipped(e.b, IF a.f THEN c.st ELSE a.st) ELSE Eval(e.b, IF a.f THEN c.st ELSE a.st, eager))
-                     IN  IF a.f THEN R(Zero, a.st, TRUE, c.u \/ a.u)
-                         ELSE IF b.f THEN R(Zero, b.st, TRUE, c.u \/ a.u \/ b.u)
-                         ELSE R(IF c.v # Zero THEN a.v ELSE b.v, b.st, FALSE, c.u \/ a.u \/ b.u)
+           ELSE LET x == TLCEval(EvalC(IF c.v # Zero THEN e.a ELSE e.b, c.st)) IN R(x.v, x.st, x.f, c.u \/ x.u)
       [] e.k = "asg" ->
-           LET a == TLCEval(Eval(e.a, st, eager)) IN
+           LET a == TLCEval(EvalC(e.a, st)) IN
            IF a.f THEN R(Zero, a.st, TRUE, a.u)
            ELSE IF e.op = "=" THEN R(a.v, Assign(a.st, e.n, a.v), FALSE, a.u)
            ELSE LET x == Read(a.st, e.n) IN
@@ -125,8 +118,81 @@ Eval(e, st, eager) ==
            ELSE LET nv == IF e.op \in {"++x", "x++"} THEN Add(x.v, One) ELSE Sub(x.v, One) IN
                 R(IF e.op \in {"++x", "--x"} THEN nv ELSE x.v, Assign(st, e.n, nv), FALSE, FALSE)
       [] OTHER ->   \* assignment to a non-lvalue: a fault; nothing is assigned
-           LET a == TLCEval(Eval(e.a, st, eager)) b == TLCEval(Eval(e.b, IF a.f THEN st ELSE a.st, eager)) IN
+           LET a == TLCEval(EvalC(e.a, st)) b == TLCEval(EvalC(e.b, IF a.f THEN st ELSE a.st)) IN
            R(Zero, IF a.f THEN a.st ELSE IF b.f THEN b.st ELSE b.st, TRUE, a.u \/ b.u)
+
+(***************************************************************************)
+(* EvalE: the named deviation of the implementation (known finding          *)
+(* F-C11-eager-operands), precisely.  Values are computed inside the        *)
+(* grammar actions of an LALR parser: every operand expression is evaluated *)
+(* when it is reduced -- also the ones C skips -- and a plain variable       *)
+(* operand (in any number of parentheses) is only looked up when the        *)
+(* operator it belongs to is applied, i.e. after the side effects of the    *)
+(* operands that follow it.  An unselected plain variable is never looked   *)
+(* up.  For expressions without skipped operands whose operands do not       *)
+(* modify a variable that is a plain operand of the same operator, EvalE    *)
+(* and EvalC agree.                                                         *)
+(***************************************************************************)
+RECURSIVE EvalE(_, _)
+IsVar(e) == e.k = "var"
+Opd(e, st) == IF IsVar(e) THEN R(Zero, st, FALSE, FALSE) ELSE EvalE(e, st)           \* reduce the operand
+Look(e, r, st) == IF IsVar(e) THEN LET x == Read(st, e.n) IN [v |-> x.v, f |-> x.f] ELSE [v |-> r.v, f |-> r.f]   \* its value when used
+EvalE(e, st) ==
+    CASE e.k = "num" -> R(e.v, st, e.bad, FALSE)
+      [] e.k = "var" -> LET x == Read(st, e.n) IN R(x.v, st, x.f, FALSE)          \* the whole expression is a variable
+      [] e.k = "un"  ->
+           LET a == TLCEval(Opd(e.a, st)) va == TLCEval(Look(e.a, a, a.st)) IN
+           R(CASE e.op = "+" -> va.v [] e.op = "-" -> Neg(va.v) [] e.op = "~" -> Not64(va.v) [] OTHER -> Bool(va.v = Zero), a.st, va.f, a.u)
+      [] e.k = "bin" ->
+           LET a == TLCEval(Opd(e.a, st)) IN
+           IF a.f THEN R(Zero, a.st, TRUE, a.u)
+           ELSE LET b == TLCEval(Opd(e.b, a.st)) IN
+                IF b.f THEN R(Zero, b.st, TRUE, a.u \/ b.u)
+                ELSE LET va == TLCEval(Look(e.a, a, b.st)) vb == TLCEval(Look(e.b, b, b.st)) IN
+                     IF va.f \/ vb.f THEN R(Zero, b.st, TRUE, a.u \/ b.u)
+                     ELSE LET c == TLCEval(Calc(e.op, va.v, vb.v)) IN R(c.v, b.st, c.f, a.u \/ b.u \/ c.u)
+      [] e.k \in {"and", "or"} ->
+           LET a == TLCEval(Opd(e.a, st)) IN
+           IF a.f THEN R(Zero, a.st, TRUE, a.u)
+           ELSE LET b == TLCEval(Opd(e.b, a.st)) IN                                  \* evaluated whatever the left operand is
+                IF b.f THEN R(Zero, b.st, TRUE, a.u \/ b.u)
+                ELSE LET va == TLCEval(Look(e.a, a, b.st)) IN
+                     IF va.f THEN R(Zero, b.st, TRUE, a.u \/ b.u)
+                     ELSE IF (IF e.k = "and" THEN va.v = Zero ELSE va.v # Zero) THEN R(Bool(e.k = "or"), b.st, FALSE, a.u \/ b.u)
+                     ELSE LET vb == TLCEval(Look(e.b, b, b.st)) IN
+                          IF vb.f THEN R(Zero, b.st, TRUE, a.u \/ b.u) ELSE R(Bool(vb.v # Zero), b.st, FALSE, a.u \/ b.u)
+      [] e.k = "tern" ->
+           LET c == TLCEval(Opd(e.c, st)) IN
+           IF c.f THEN R(Zero, c.st, TRUE, c.u)
+           ELSE LET a == TLCEval(Opd(e.a, c.st)) IN
+                IF a.f THEN R(Zero, a.st, TRUE, c.u \/ a.u)
+                ELSE LET b == TLCEval(Opd(e.b, a.st)) IN
+                     IF b.f THEN R(Zero, b.st, TRUE, c.u \/ a.u \/ b.u)
+                     ELSE LET vc == TLCEval(Look(e.c, c, b.st)) IN
+                          IF vc.f THEN R(Zero, b.st, TRUE, c.u \/ a.u \/ b.u)
+                          ELSE LET x == TLCEval(IF vc.v # Zero THEN Look(e.a, a, b.st) ELSE Look(e.b, b, b.st)) IN
+                               R(IF x.f THEN Zero ELSE x.v, b.st, x.f, c.u \/ a.u \/ b.u)
+      [] e.k = "asg" ->
+           LET a == TLCEval(Opd(e.a, st)) IN
+           IF a.f THEN R(Zero, a.st, TRUE, a.u)
+           ELSE LET va == TLCEval(Look(e.a, a, a.st)) IN
+                IF va.f THEN R(Zero, a.st, TRUE, a.u)
+                ELSE IF e.op = "=" THEN R(va.v, Assign(a.st, e.n, va.v), FALSE, a.u)
+                ELSE LET x == Read(a.st, e.n) IN
+                     IF x.f THEN R(Zero, a.st, TRUE, a.u)
+                     ELSE LET c == TLCEval(Calc(BaseOp(e.op), x.v, va.v)) IN
+                          IF c.f THEN R(Zero, a.st, TRUE, a.u \/ c.u)
+                          ELSE R(c.v, Assign(a.st, e.n, c.v), FALSE, a.u \/ c.u)
+      [] e.k = "inc" ->
+           LET x == Read(st, e.n) IN
+           IF x.f THEN R(Zero, st, TRUE, FALSE)
+           ELSE LET nv == IF e.op \in {"++x", "x++"} THEN Add(x.v, One) ELSE Sub(x.v, One) IN
+                R(IF e.op \in {"++x", "--x"} THEN nv ELSE x.v, Assign(st, e.n, nv), FALSE, FALSE)
+      [] OTHER ->
+           LET a == TLCEval(Opd(e.a, st)) b == TLCEval(Opd(e.b, IF a.f THEN st ELSE a.st)) IN
+           R(Zero, IF a.f THEN a.st ELSE b.st, TRUE, a.u \/ b.u)
+
+Eval(e, st, eager) == IF eager THEN EvalE(e, st) ELSE EvalC(e, st)
 
 (***************************************************************************)
 (* C leaves the value undefined when a variable is modified and otherwise   *)
@@ -143,7 +209,30 @@ Writes(e) == CASE e.k \in {"num", "var"} -> <<>> [] e.k = "un" -> Writes(e.a)
                [] e.k = "tern" -> Writes(e.c) \o Writes(e.a) \o Writes(e.b)
                [] e.k = "asg" -> <<e.n>> \o Writes(e.a) [] OTHER -> <<e.n>>
 Count(s, n) == Cardinality({i \in 1..Len(s) : s[i] = n})
-Defined(e) == \A n \in {"x", "y"} : Count(Writes(e), n) = 0 \/ (Count(Writes(e), n) = 1 /\ Count(Reads(e), n) = 0)
+
+(* Sequencing (C11 6.5): [se, rd, ub] = the variables with a side effect, the variables whose value is read, and  *)
+(* whether two unsequenced accesses conflict.  && || ?: are sequence points; the operands of every other binary   *)
+(* operator are unsequenced; an assignment's store is sequenced after the evaluation of its right side (so        *)
+(* x = x + 1 is defined, x = x++ is not).                                                                         *)
+RECURSIVE Sq(_)
+Sq(e) ==
+    CASE e.k = "num" -> [se |-> {}, rd |-> {}, ub |-> FALSE]
+      [] e.k = "var" -> [se |-> {}, rd |-> {e.n}, ub |-> FALSE]
+      [] e.k = "un"  -> Sq(e.a)
+      [] e.k \in {"bin", "nolv"} ->
+           LET a == Sq(e.a) b == Sq(e.b) IN
+           [se |-> a.se \cup b.se, rd |-> a.rd \cup b.rd,
+            ub |-> a.ub \/ b.ub \/ a.se \cap (b.se \cup b.rd) # {} \/ b.se \cap (a.se \cup a.rd) # {}]
+      [] e.k \in {"and", "or"} ->
+           LET a == Sq(e.a) b == Sq(e.b) IN [se |-> a.se \cup b.se, rd |-> a.rd \cup b.rd, ub |-> a.ub \/ b.ub]
+      [] e.k = "tern" ->
+           LET c == Sq(e.c) a == Sq(e.a) b == Sq(e.b) IN
+           [se |-> c.se \cup a.se \cup b.se, rd |-> c.rd \cup a.rd \cup b.rd, ub |-> c.ub \/ a.ub \/ b.ub]
+      [] e.k = "asg" ->
+           LET a == Sq(e.a) IN
+           [se |-> a.se \cup {e.n}, rd |-> a.rd \cup (IF e.op = "=" THEN {} ELSE {e.n}), ub |-> a.ub \/ e.n \in a.se]
+      [] OTHER -> [se |-> {e.n}, rd |-> {e.n}, ub |-> FALSE]      \* ++ --
+Defined(e) == ~Sq(e).ub
 
 (***************************************************************************)
 (* Rendering with the minimal parentheses C's precedence and associativity  *)
